@@ -9,6 +9,7 @@ package marshal // import "mellium.im/xmpp/internal/marshal"
 import (
 	"bytes"
 	"encoding/xml"
+	"fmt"
 
 	"mellium.im/xmlstream"
 )
@@ -92,7 +93,9 @@ func EncodeXML(w xmlstream.TokenWriter, v interface{}) error {
 // If the stream is an xmlstream.Flusher, EncodeXMLElement calls Flush before
 // returning.
 func EncodeXMLElement(w xmlstream.TokenWriter, v interface{}, start xml.StartElement) error {
-	if wt, ok := v.(xmlstream.WriterTo); ok {
+	_, isMarshaler := v.(xmlstream.Marshaler)
+	_, isReader := v.(xml.TokenReader)
+	if wt, ok := v.(xmlstream.WriterTo); ok && !isMarshaler && !isReader {
 		_, err := wt.WriteXML(w)
 		return err
 	}
@@ -100,7 +103,25 @@ func EncodeXMLElement(w xmlstream.TokenWriter, v interface{}, start xml.StartEle
 	if err != nil {
 		return err
 	}
-	_, err = xmlstream.Copy(w, rawTokenReader{Decoder: d})
+
+	// Use start as the outermost tag instead of the one from the encoding of v.
+	r := rawTokenReader{Decoder: d}
+	tok, err := r.Token()
+	if err != nil {
+		return err
+	}
+	if _, ok := tok.(xml.StartElement); !ok {
+		return fmt.Errorf("marshal: expected encoding to begin with a start element, got %T", tok)
+	}
+	err = w.EncodeToken(start)
+	if err != nil {
+		return err
+	}
+	_, err = xmlstream.Copy(w, xmlstream.Inner(r))
+	if err != nil {
+		return err
+	}
+	err = w.EncodeToken(start.End())
 	if err != nil {
 		return err
 	}
